@@ -65,7 +65,8 @@ def r11a(ctx):
                 for a, v in g:
                     if a[0] == 'cmp' and a[1] == 'in' and v is False:
                         excl = a[3]
-                        if is_call(excl, 'builtins.set') and mentions(
+                        if (is_call(excl, 'builtins.set', 'builtins.frozenset') or
+                                (excl[0] == 'comp' and excl[1] == 'set')) and mentions(
                                 excl, lambda x: method_call(x) and method_call(x)[0] == SELF and
                                 method_call(x)[1] in ('named_nas_parameters', 'nas_parameters')):
                             good = True
